@@ -48,11 +48,28 @@ def gen_kernel(rng, pools, force=None):
             seen.append(e["canon"])
         args.append(dict(e, role=role, kind=kind))
     mod = None if builtin else [m for _, m, t in G.KERNELS if t == kname][0]
+    mark_codeblocks(args, rng.random())
     return {"kname": kname, "builtin": builtin, "module": mod, "args": args}
 
 
+def mark_codeblocks(args, salt):
+    """PSyIR path only: fparser2 reads a kernel call holding a REAL literal as a structure constructor and the
+    %-component arguments of such a call reach `_add_arg` as CodeBlocks, which are always passed: each of them is a
+    spelling class of its own."""
+    if any(a["lit"] and a["kind"] == "rscalar" for a in args):
+        for j, a in enumerate(args):
+            if not a["lit"] and not a["dirconst"] and "%" in a["canon"]:
+                a["cls"] = f"codeblock:{salt}:{j}"
+
+
+def _label_src(rng, name):
+    q = rng.choice(["'", '"'])
+    return G.noisy(rng, "name") + rng.choice(["=", " = "]) + q + G.noisy(rng, name).replace(" ", "") + q
+
+
 def gen_file(rng, malformed=False):
-    pools = G.Pools(rng)
+    clash = rng.random() < 0.08
+    pools = G.Pools(rng, clash=clash)
     ninv = rng.choice([1, 1, 2, 2, 3, 4])
     invokes, labels = [], []
     for _ in range(ninv):
@@ -61,30 +78,57 @@ def gen_file(rng, malformed=False):
         name = name_src = None
         if rng.random() < 0.4:
             name = rng.choice(["mine", "step_1", "compute", "a_b", "x"]) + str(len(labels))
+            if rng.random() < 0.15:
+                name = "invoke_" + name          # already prefixed: used as it is
             labels.append(name)
-            q = rng.choice(["'", '"'])
-            name_src = G.noisy(rng, "name") + rng.choice(["=", " = "]) + q + G.noisy(rng, name).replace(" ", "") + q
+            name_src = _label_src(rng, name)
         invokes.append({"name": name, "name_src": name_src, "kernels": kernels})
     if malformed:
-        kind = rng.choice(["litdir", "dup", "arity"])
+        kind = rng.choice(["litdir", "dup", "arity", "label", "label"])
         k = rng.choice(rng.choice(invokes)["kernels"])
         if kind == "litdir":
             k2 = gen_kernel(rng, pools, force=("testkern_stencil_xory1d_type", False))
             for a in k2["args"]:
                 if a["role"] == "direction":
-                    a.update(G.lit(rng.choice(["1", "2"])), role="direction")
+                    a.update(G.lit(rng.choice(["1", "2"])), role="direction", cls=None)
             rng.choice(invokes)["kernels"].append(k2)
         elif kind == "dup":
             data = [a for a in k["args"] if a["role"] == "data" and not a["lit"] and a["kind"] == "field"]
             if len(data) >= 2:
                 src = dict(data[0])
                 data[1].update(canon=src["canon"], root=src["root"], src=G.noisy(rng, src["canon"]))
-        else:
+                data[1]["cls"] = G.spelling_class(data[1]["src"])
+        elif kind == "arity":
             k["args"].append(dict(pools.pick("field"), role="data", kind="field"))
             k["arity_broken"] = True
+        else:
+            # labels whose routine name coincides with another invoke's: invoke_<idx>, invoke_<idx>_<kernel>,
+            # and the pair  x / invoke_x
+            inv = rng.choice(invokes)
+            j = rng.randrange(len(invokes))
+            other = invokes[j]
+            how = rng.choice(["idx", "idxkern", "pair", "digits"])
+            if how == "idx":
+                name = f"invoke_{j}"
+            elif how == "idxkern":
+                kn = other["kernels"][0]["kname"] if not other["kernels"][0]["builtin"] else "testkern_type"
+                name = f"invoke_{j}_{kn}"
+            elif how == "digits":
+                name = "invoke_7up"
+            else:
+                base = next((i["name"] for i in invokes if i["name"] and i is not inv), None) or "zz"
+                name = base[len("invoke_"):] if base.startswith("invoke_") else "invoke_" + base
+                if base == "zz":
+                    name = "invoke_zz"
+            if name not in [i["name"] for i in invokes]:
+                inv["name"], inv["name_src"] = name, _label_src(rng, name)
     unit = "program" if rng.random() < 0.8 else "module"
     text = G.render_file(rng, invokes, unit)
-    return {"text": text, "dm": rng.random() < 0.25, "invokes": invokes}
+    # the PSyIR path turns a kernel call with a signed literal / literal expression into CodeBlocks (always passed)
+    # or stops with TypeError: such files go through the default path only
+    litexpr = any(a["lit"] and ("*" in a["canon"] or a["canon"].startswith("-"))
+                  for i in invokes for k in i["kernels"] for a in k["args"])
+    return {"text": text, "dm": rng.random() < 0.25, "invokes": invokes, "clash": clash, "litexpr": litexpr}
 
 
 # ------------------------------------------------------------------------------------------ calibration
@@ -169,22 +213,28 @@ def _templ(rt, text, bnames):
 
 
 # ------------------------------------------------------------------------------------------ property on the real output
-def expected_name(inv, idx):
-    if inv["name"] is not None:
-        return "invoke_" + inv["name"]
+def full_label(label):
+    return label if label.startswith("invoke_") else "invoke_" + label
+
+
+def expected_name(inv, idx, testing=False):
+    """routine name, worked out here from the documented rules (independent of the model)"""
+    single_builtin = len(inv["kernels"]) == 1 and inv["kernels"][0]["builtin"]
+    if inv["name"] is not None and not (testing and single_builtin):
+        return full_label(inv["name"])
     if len(inv["kernels"]) == 1 and not inv["kernels"][0]["builtin"]:
         return f"invoke_{idx}_{inv['kernels'][0]['kname']}"
     return f"invoke_{idx}"
 
 
-def check_invoke(inv, idx, call, rt):
+def check_invoke(inv, idx, call, rt, testing=False):
     """The property, evaluated on the text of the two generated layers.  Returns a list of (reason, detail)."""
     bad = []
     cname, actuals = call
     written = {G.norm(a["canon"]) for k in inv["kernels"] for a in k["args"] if not a["lit"] and not a["dirconst"]}
     if cname != rt.name:
         bad.append(("routine-name", f"algorithm calls {cname}, PSy layer defines {rt.name}"))
-    if cname != expected_name(inv, idx):
+    if not testing and cname != expected_name(inv, idx):
         bad.append(("routine-name", f"expected {expected_name(inv, idx)}, found {cname}"))
     if len(actuals) != len(rt.dummies):
         bad.append(("list-length", f"{len(actuals)} actual arguments for {len(rt.dummies)} dummies"))
@@ -265,8 +315,9 @@ def _strip(s):
 
 
 def evaluate(case):
-    """run the real code and evaluate the property; returns dict(status, invokes=[per-invoke observation], bad=[...])"""
-    res = R.run_generate(case["text"], case["dm"], case.get("testing", False))
+    """run the real code and evaluate the property; returns dict(status, obs=[per-invoke observation], bad=[...])"""
+    testing = case.get("testing", False)
+    res = R.run_generate(case["text"], case["dm"], testing)
     if res[0] == "error":
         return {"status": "refused", "error": res[1], "message": res[2], "bad": []}
     calls, left, uses = R.read_alg(res[1])
@@ -277,15 +328,18 @@ def evaluate(case):
     if len(calls) != len(case["invokes"]) or len(rts) != len(case["invokes"]):
         bad.append(("invoke-count", f"{len(case['invokes'])} invokes, {len(calls)} rewritten calls, {len(rts)} PSy routines"))
         return {"status": "ok", "bad": bad, "obs": []}
-    if len({r.name for r in rts}) != len(rts):
-        bad.append(("routine-name", "two PSy routines with the same name"))
+    names = [r.name for r in rts]
+    dupn = sorted({n for n in names if names.count(n) > 1})
+    if dupn:
+        bad.append(("routine-name-clash", f"the PSy module defines {dupn} more than once (routines {names}); the calls "
+                                          f"{[c[0] for c in calls]} cannot tell them apart"))
     obs = []
     for idx, (inv, call, rt) in enumerate(zip(case["invokes"], calls, rts)):
-        b = check_invoke(inv, idx, call, rt)
+        b = check_invoke(inv, idx, call, rt, testing)
         bad += [(r, f"invoke {idx}: {d}") for r, d in b]
         if not any(u.startswith("use") and call[0] in re.split(r"[,:]", u) for u in uses):
             bad.append(("use-missing", f"invoke {idx}: {call[0]} is not imported in the algorithm layer"))
-        obs.append({"actuals": call[1], "dummies": rt.dummies, "rt": rt})
+        obs.append({"name": call[0], "actuals": call[1], "dummies": rt.dummies, "rt": rt})
     return {"status": "ok", "bad": bad, "obs": obs}
 
 
@@ -302,30 +356,89 @@ class Intern:
 
 
 ROLE = {"data": 0, "extent": 1, "direction": 2, "qr": 3}
+PROXIED = ("field", "vec", "op", "qr")
 
 
-def model_line(inv, texts, roots):
-    ks = []
+def label_form(label, strs):
+    """shape of a (lower-case) label, see C24.LabelForm; labels starting with 'invoke' without '_' are not generated"""
+    if label is None:
+        return [0]
+    if not label.startswith("invoke_"):
+        return [1, strs(label)]
+    rest = label[len("invoke_"):]
+    if rest.isdigit():
+        return [3, int(rest)]
+    m = re.match(r"(\d+)_(.+)$", rest)
+    if m:
+        return [4, int(m.group(1)), strs(m.group(2))]
+    if rest[:1].isdigit():
+        return [5, strs(rest)]
+    return [2, strs(rest)]
+
+
+def internals_of(inv, texts, roots):
+    """the part of the string relation the model needs: which `<name>_proxy`, `map_/ndf_/undf_<space>` strings are
+    roots of arguments of this invoke"""
+    rootstrs = {a["root"] for k in inv["kernels"] for a in k["args"] if not a["lit"] and not a["dirconst"]}
+    proxied = sorted({texts(G.norm(a["canon"])) for k in inv["kernels"] for a in k["args"]
+                      if a["kind"] in PROXIED and not a["lit"] and not a["dirconst"]})
+    table = []
+    for r in sorted(rootstrs):
+        for k in range(0, 4):
+            rendered = r if k == 0 else f"{r}_{k}"
+            if rendered + "_proxy" in rootstrs:
+                table.append([roots(r), k, roots(rendered + "_proxy")])
+    sp = []
     for k in inv["kernels"]:
-        slots = []
-        for a in k["args"]:
-            if a["lit"]:
-                slots.append([ROLE[a["role"]], 0, texts(G.norm(a["canon"])), 0])
-            elif a["dirconst"]:
-                slots.append([ROLE[a["role"]], 2, texts(a["canon"]), 0])
-            else:
-                slots.append([ROLE[a["role"]], 1, texts(G.norm(a["canon"])), roots(a["root"])])
-        ks.append(slots)
-    return sx(ks)
+        if not k["builtin"]:
+            for fs in R.spaces(k["kname"]):
+                for pre in ("map_", "ndf_", "undf_"):
+                    if pre + fs in rootstrs and roots(pre + fs) not in sp:
+                        sp.append(roots(pre + fs))
+    return [proxied, table, sp]
 
 
-def compare_model(inv, mo, ob, texts, roots):
-    """None or a description of the first difference between model output and real output"""
+def model_line(case, texts, roots, strs, classes):
+    decls = []
+    for inv in case["invokes"]:
+        ks = []
+        for k in inv["kernels"]:
+            slots = []
+            for a in k["args"]:
+                if a["lit"]:
+                    slots.append([ROLE[a["role"]], 0, texts(G.norm(a["canon"])), 0, 0])
+                elif a["dirconst"]:
+                    slots.append([ROLE[a["role"]], 2, texts(a["canon"]), 0, 0])
+                else:
+                    slots.append([ROLE[a["role"]], 1, texts(G.norm(a["canon"])), roots(a["root"]),
+                                  classes(a.get("cls") or G.spelling_class(a["src"]))])
+            ks.append(slots)
+        heads = [0 if k["builtin"] else strs(k["kname"]) for k in inv["kernels"]]
+        decls.append([label_form(inv["name"], strs), heads, ks, internals_of(inv, texts, roots)])
+    return sx(decls)
+
+
+def rname_str(n, strs_rev):
+    if n[0] == "L":
+        return "invoke_" + strs_rev[n[1]]
+    if n[0] == "I":
+        return f"invoke_{n[1]}"
+    if n[0] == "K":
+        return f"invoke_{n[1]}_{strs_rev[n[2]]}"
+    return "invoke_" + strs_rev[n[1]]
+
+
+def compare_model(inv, mo, ob, texts, roots, strs, testing=False):
+    """None or a description of the first difference between model output and real output (one invoke).
+    mo = [nameA, nameB, actuals, actualsB, dummies, kcalls, clashes]"""
     tr, rr = texts.rev(), roots.rev()
-    mact = [tr[t] for t in mo[0]]
+    mname = rname_str(mo[1] if testing else mo[0], strs.rev())
+    if mname != ob["name"]:
+        return f"routine name: model {mname}, real {ob['name']}"
+    mact = [tr[t] for t in (mo[3] if testing else mo[2])]
     if mact != ob["actuals"]:
         return f"actual list: model {mact}, real {ob['actuals']}"
-    mdum = [tuple(d) for d in mo[1]]
+    mdum = [tuple(d) for d in mo[4]]
     real = ob["dummies"]
     if len(mdum) != len(real):
         return f"dummy list length: model {len(mdum)}, real {len(real)}"
@@ -335,9 +448,16 @@ def compare_model(inv, mo, ob, texts, roots):
             return f"dummy names: model {mdum}, real {real} (different equality pattern)"
         if not r.startswith(rr[m[0]]):
             return f"dummy name {r} does not start with the model's root {rr[m[0]]}"
-    # per kernel argument: the symbol the model hands to the kernel is the dummy the real call position traces to
     rt = ob["rt"]
-    for ki, (k, mk) in enumerate(zip(inv["kernels"], mo[2])):
+    # dummies the routine declares again / overwrites  <->  model `clashes`
+    over = sorted(d for d in set(real) if d in rt.assigned or rt.declared.get(d, 0) > 1)
+    mover = sorted({m2r.get(tuple(c), str(c)) for c in mo[6]})
+    if over != mover:
+        return f"dummies re-declared / overwritten inside the routine: model {mover}, real {over}"
+    if mover:
+        return None        # data flow through an overwritten dummy is not comparable
+    # per kernel argument: the symbol the model hands to the kernel is the dummy the real call position traces to
+    for ki, (k, mk) in enumerate(zip(inv["kernels"], mo[5])):
         lay = layout(k["kname"], k["builtin"])
         if lay[0] != "positions" or ki >= len(rt.loops) or rt.loops[ki][0] != "call":
             continue
@@ -357,21 +477,6 @@ def compare_model(inv, mo, ob, texts, roots):
     return None
 
 
-def model_refusal_reason(inv):
-    for k in inv["kernels"]:
-        seen = set()
-        for a in k["args"]:
-            if a["role"] == "direction" and a["lit"]:
-                return "literal-direction"
-            if a["role"] == "data" and not a["lit"]:
-                t = G.norm(a["canon"])
-                if t in seen:
-                    return "repeated-in-kernel"
-                seen.add(t)
-    return None
-
-
-# ------------------------------------------------------------------------------------------ known findings
 def roles_shared(inv):
     by = {}
     for k in inv["kernels"]:
@@ -381,12 +486,20 @@ def roles_shared(inv):
     return sorted(t for t, r in by.items() if len(r) > 1)
 
 
-def classify(reason, detail, inv, mo):
-    """id of the known finding whose class the failing input belongs to (model reproduces it AND classifier accepts)"""
-    if reason == "duplicate-dummy" and inv is not None and roles_shared(inv) and mo is not None:
-        mdum = [tuple(d) for d in mo[1]]
-        if len(set(mdum)) < len(mdum):
-            return "C24-same-expression-two-roles"
+def classify(reason, detail, inv, mo, testing):
+    """id of the known finding whose class the failing input belongs to: the committed model reproduces the
+    behaviour on this invoke AND the finding's classifier accepts it"""
+    if inv is None or mo is None:
+        return None
+    if mo[6]:          # model: a concatenated internal name coincides with a dummy of this invoke
+        if reason in ("dummy-overwritten", "dataflow", "literal"):
+            return "C24-psy-internal-name-clash"
+    if testing:
+        if mo[3] != mo[2] and reason in ("list-length", "actual-missing", "actual-not-written", "dataflow",
+                                        "dummy-two-actuals", "literal"):
+            return "C24-psyir-path-component-repeat"
+        if mo[1] != mo[0] and reason == "routine-name":
+            return "C24-psyir-path-named-builtin"
     return None
 
 
@@ -404,12 +517,13 @@ def corpus_cases():
 def payload_of(case, reason, detail, extra=None):
     inv = [{"name": i["name"], "name_src": i["name_src"],
             "kernels": [{"kname": k["kname"], "builtin": k["builtin"], "module": k["module"],
-                         "args": [{x: a[x] for x in ("lit", "dirconst", "canon", "root", "src", "role", "kind")}
+                         "args": [{x: a.get(x) for x in ("lit", "dirconst", "canon", "root", "src", "role", "kind", "cls")}
                                   for a in k["args"]]} for k in i["kernels"]]} for i in case["invokes"]]
     p = {"kind": "failing-input", "text": case["text"], "dm": case["dm"], "invokes": inv,
-         "observed": detail, "reason": reason,
-         "expected": "algorithm call and PSy routine agree position by position and every kernel argument's data "
-                     "comes from the expression written at its position in the invoke"}
+         "testing": case.get("testing", False), "observed": detail, "reason": reason,
+         "expected": "every rewritten call names exactly one PSy routine, the one generated from its invoke; call and "
+                     "routine agree position by position; every kernel argument's data comes from the expression "
+                     "written at its position in the invoke; no dummy argument is declared twice or overwritten"}
     if extra:
         p.update(extra)
     return p
@@ -419,18 +533,25 @@ def run(chk):
     chk.cov["rule"] = ("LFRic algorithm files with 1-4 invokes of 1-4 kernel calls (9 bundled test kernels incl. stencil, "
                        "xory1d, quadrature, field-vector and operator kernels; 9 built-ins), arguments drawn from pools with "
                        "repetition across kernels/invokes/roles, random case and blanks, indexed / %-component / nested "
-                       "component / literal / literal-expression forms, names clashing with PSy-layer internals, named and "
-                       "unnamed invokes, program or module-subroutine units, 25% distributed memory; plus a malformed stream "
-                       "(literal stencil direction, argument repeated in one kernel, wrong arity). non-trivial = accepted file "
-                       "with >= 2 kernel calls in total and at least one repeated or non-plain argument; distinct by canonical JSON")
+                       "component / literal / literal-expression forms, symbolically equal index spellings, names clashing "
+                       "with PSy-layer internals (symbol-table made and concatenated ones), named and unnamed invokes, "
+                       "program or module-subroutine units, 25% distributed memory; every file through BOTH algorithm paths "
+                       "(default alg_gen.Alg and PSyIR-based LFRIC_TESTING); plus a malformed stream (literal stencil "
+                       "direction, argument repeated in one kernel, wrong arity, clashing invoke labels). non-trivial = "
+                       "accepted file with >= 2 kernel calls in total, a repeated text and a non-plain argument; distinct by "
+                       "canonical JSON")
     chk.assumptions += [
         "the layout of a generated kernel call depends on the kernel only (calibrated on invoke(K(za..),K(zb..)))",
         "fparser2 reads the two generated layers correctly; white space and case are not significant in Fortran",
         "kernel loops are generated in the order of the kernel calls of the invoke (no transformations applied)",
-        "algorithm variables named <other argument>_proxy are not generated (known finding C24-proxy-name-clash, replayed separately)",
-        "quadrature objects are not reused in another role; kernel metadata objects are memoised per kernel (input parsing)"]
+        "function-space names entering the model are those of the kernel metadata (w0..w3 in the palette); any_space "
+        "names of built-ins (ndf_aspc1_<arg>) are not generated as argument names",
+        "labels starting with 'invoke' but not 'invoke_' are not generated; quadrature objects are not reused in "
+        "another role; kernel metadata objects are memoised per kernel (input parsing)",
+        "PSyIR path: files with a literal-expression argument are run through the default path only (TypeError there)"]
     chk.cov["trusted_base"] = ["Lean 4.33.0 kernel", "axioms propext/Classical.choice/Quot.sound only (audited)",
-                               "harness/props/c24*.py (generator, fparser2-based reader of the generated text, tracing, calibration)",
+                               "harness/props/c24*.py (generator, fparser2-based reader of the generated text, tracing, "
+                               "calibration, interning of strings incl. the <name>_proxy / map_<space> string relation)",
                                "fparser2 (parsing of generated Fortran)"]
     chk.lean()
     try:
@@ -441,92 +562,107 @@ def run(chk):
         R.cleanup()
 
 
+CRASHES = ("TypeError", "SymbolError")
+
+
 def _run(chk):
     R.setup()
-    n = 90 if chk.tier != "thorough" else 600
+    n = 70 if chk.tier != "thorough" else 450
     cases = [dict(c, corpus=True) for c in corpus_cases()]
     for i in range(n):
-        cases.append(gen_file(chk.rng, malformed=(i % 8 == 7)))
-    dist = {"accepted": 0, "refused": 0, "invokes": 0, "kernels": 0, "errors": {}, "dm": 0, "named": 0,
-            "role_shared_invokes": 0, "forms": {"plain": 0, "indexed": 0, "component": 0, "literal": 0, "dirconst": 0}}
+        cases.append(gen_file(chk.rng, malformed=(i % 6 == 5)))
+    dist = {"accepted": 0, "refused": 0, "crashed": 0, "invokes": 0, "kernels": 0, "errors": {}, "dm": 0, "named": 0,
+            "role_shared_invokes": 0, "psyir": {"files": 0, "accepted": 0, "errors": {}},
+            "forms": {"plain": 0, "indexed": 0, "component": 0, "literal": 0, "dirconst": 0}, "known_class_hits": {}}
     reported = set()
     interns, lines = [], []
     for case in cases:
-        texts, roots = Intern(), Intern()
-        interns.append((texts, roots))
-        lines += [model_line(inv, texts, roots) for inv in case["invokes"]]
+        t4 = (Intern(), Intern(), Intern(), Intern())
+        interns.append(t4)
+        lines.append(model_line(case, *t4))
     model_out = driver("C24", lines)
-    at = 0
-    for case, (texts, roots) in zip(cases, interns):
-        mos = [None if m == "refused" else parse_sx(m) for m in model_out[at:at + len(case["invokes"])]]
-        at += len(case["invokes"])
-        ev = evaluate(case)
-        model_ref = [r for r in (model_refusal_reason(i) for i in case["invokes"]) if r]
-        lean_ref = any(m is None for m in mos)
-        arity = any(k.get("arity_broken") for i in case["invokes"] for k in i["kernels"])
+
+    def report(case, reason, detail, idx, mos, testing):
+        inv = case["invokes"][idx] if idx is not None and idx < len(case["invokes"]) else None
+        mo = mos[idx] if (mos and idx is not None and idx < len(mos)) else None
+        fid = classify(reason, detail, inv, mo, testing)
+        if fid:
+            dist["known_class_hits"][fid] = dist["known_class_hits"].get(fid, 0) + 1
+            return
+        key = (reason, testing)
+        if key in reported or len(chk.violations) >= 4:
+            return
+        reported.add(key)
+        chk.violation(payload_of(dict(case, testing=testing), reason, detail))
+
+    for case, (texts, roots, strs, classes), mline in zip(cases, interns, model_out):
+        mos = parse_sx(mline) if mline not in ("refused", "crashed") else None
         key = {"text": case["text"], "dm": case["dm"]}
         nk = sum(len(i["kernels"]) for i in case["invokes"])
-        if bool(model_ref) != lean_ref:
-            chk.correspondence_broken("harness refusal predicate and Lean model differ", key, str(mos), str(model_ref))
-        if ev["status"] == "refused":
-            dist["refused"] += 1
-            dist["errors"][ev["error"]] = dist["errors"].get(ev["error"], 0) + 1
-            agreed = (lean_ref or arity) and ev["error"] in CLEAN_REFUSALS
-            if not agreed and ev["error"] in ("TypeError", "SymbolError"):
-                # crash variant of the known finding: the expression used in two roles is registered first as a
-                # stencil extent (plain Symbol) and then needed as a DataSymbol
-                hit = [i for i, inv in enumerate(case["invokes"])
-                       if roles_shared(inv) and mos[i] is not None and len({tuple(d) for d in mos[i][1]}) < len(mos[i][1])]
-                if hit:
-                    k = dist.setdefault("known_class_hits", {})
-                    k["C24-same-expression-two-roles(crash)"] = k.get("C24-same-expression-two-roles(crash)", 0) + 1
-                    chk.case(key, nontrivial=False, agreed=True)
-                    continue
-            chk.case(key, nontrivial=False, agreed=agreed)
-            if not agreed:
-                chk.correspondence_broken(f"real code raises {ev['error']} ({ev['message'][:120]}) on an invoke the model accepts",
-                                          key, "accepted", ev["error"])
-            continue
-        dist["accepted"] += 1
-        dist["dm"] += case["dm"]
-        agreed = True
-        if lean_ref or arity:
-            agreed = False
-            chk.correspondence_broken("real code accepts an invoke the model refuses", key, str(model_ref or 'arity'), "accepted")
-        for idx, inv in enumerate(case["invokes"]):
-            dist["invokes"] += 1
-            dist["kernels"] += len(inv["kernels"])
-            dist["named"] += inv["name"] is not None
-            dist["role_shared_invokes"] += bool(roles_shared(inv))
-            for k in inv["kernels"]:
-                for a in k["args"]:
-                    f = ("literal" if a["lit"] else "dirconst" if a["dirconst"] else
-                         "component" if "%" in a["canon"] else "indexed" if "(" in a["canon"] else "plain")
-                    dist["forms"][f] += 1
-            if agreed and idx < len(ev.get("obs", [])) and mos[idx] is not None:
-                diff = compare_model(inv, mos[idx], ev["obs"][idx], texts, roots)
-                if diff:
+        arity = any(k.get("arity_broken") for i in case["invokes"] for k in i["kernels"])
+        for testing in (False, True):
+            if testing and (case.get("corpus") or case.get("litexpr")):
+                continue
+            ev = evaluate(dict(case, testing=testing))
+            tag = "psyir" if testing else "default"
+            if testing:
+                dist["psyir"]["files"] += 1
+            if ev["status"] == "refused":
+                err = ev["error"]
+                if testing:
+                    dist["psyir"]["errors"][err] = dist["psyir"]["errors"].get(err, 0) + 1
+                else:
+                    dist["errors"][err] = dist["errors"].get(err, 0) + 1
+                    dist["crashed" if err in CRASHES else "refused"] += 1
+                if err in CRASHES:
+                    agreed = mline == "crashed"
+                elif err in CLEAN_REFUSALS:
+                    agreed = mline == "refused" or arity
+                else:
                     agreed = False
-                    chk.correspondence_broken("generated argument lists differ from C24.generate: " + diff, key,
-                                              str(mos[idx])[:400], str(ev["obs"][idx]["actuals"]) + str(ev["obs"][idx]["dummies"]))
-        alltexts = [G.norm(a["canon"]) for i in case["invokes"] for k in i["kernels"] for a in k["args"] if not a["lit"]]
-        nontriv = (nk >= 2 and len(set(alltexts)) < len(alltexts)
-                   and any("%" in t or "(" in t for t in alltexts))
-        chk.case(key, nontrivial=nontriv, agreed=agreed)
-        for reason, detail in ev["bad"]:
-            m = re.match(r"invoke (\d+):", detail)
-            idx = int(m.group(1)) if m else None
-            inv = case["invokes"][idx] if idx is not None else None
-            mo = mos[idx] if idx is not None else None
-            fid = classify(reason, detail, inv, mo)
-            if fid:
-                dist.setdefault("known_class_hits", {}).setdefault(fid, 0)
-                dist["known_class_hits"][fid] += 1
+                if testing:
+                    agreed = True      # refusals / aborts of the (temporary, switched-off) PSyIR path are only recorded
+                if not testing:
+                    chk.case(key, nontrivial=False, agreed=agreed)
+                if not agreed:
+                    chk.correspondence_broken(f"[{tag} path] real code raises {err} ({ev['message'][:120]}); model: "
+                                              f"{'accepts' if mos is not None else mline}", key, mline[:300], err)
                 continue
-            if reason in reported or len(chk.violations) >= 3:
-                continue
-            reported.add(reason)
-            chk.violation(payload_of(case, reason, detail))
+            agreed = True
+            if mos is None or arity:
+                agreed = False
+                chk.correspondence_broken(f"[{tag} path] real code accepts a file the model says is {mline if mos is None else 'of wrong arity'}",
+                                          key, mline[:200], "accepted")
+            if testing:
+                dist["psyir"]["accepted"] += 1
+            else:
+                dist["accepted"] += 1
+                dist["dm"] += case["dm"]
+            for idx, inv in enumerate(case["invokes"]):
+                if not testing:
+                    dist["invokes"] += 1
+                    dist["kernels"] += len(inv["kernels"])
+                    dist["named"] += inv["name"] is not None
+                    dist["role_shared_invokes"] += bool(roles_shared(inv))
+                    for k in inv["kernels"]:
+                        for a in k["args"]:
+                            f = ("literal" if a["lit"] else "dirconst" if a["dirconst"] else
+                                 "component" if "%" in a["canon"] else "indexed" if "(" in a["canon"] else "plain")
+                            dist["forms"][f] += 1
+                if agreed and mos is not None and idx < len(ev.get("obs", [])) and idx < len(mos):
+                    diff = compare_model(inv, mos[idx], ev["obs"][idx], texts, roots, strs, testing)
+                    if diff:
+                        agreed = False
+                        chk.correspondence_broken(f"[{tag} path] generated code differs from the model: " + diff, key,
+                                                  str(mos[idx])[:400],
+                                                  str(ev["obs"][idx]["actuals"]) + str(ev["obs"][idx]["dummies"]))
+            if not testing:
+                alltexts = [G.norm(a["canon"]) for i in case["invokes"] for k in i["kernels"] for a in k["args"] if not a["lit"]]
+                nontriv = (nk >= 2 and len(set(alltexts)) < len(alltexts) and any("%" in t or "(" in t for t in alltexts))
+                chk.case(key, nontrivial=nontriv, agreed=agreed)
+            for reason, detail in ev["bad"]:
+                m = re.match(r"invoke (\d+):", detail)
+                report(case, reason, detail, int(m.group(1)) if m else None, mos, testing)
     chk.cov["distribution"] = dist
     if chk.tier == "thorough":
         gfortran_stage(chk, [c for c in cases if not c.get("corpus")], dist)
@@ -558,9 +694,8 @@ def gfortran_stage(chk, cases, dist, limit=30):
                 g["clean"] += 1
             elif not rel:
                 g["other_errors"] += 1
-            elif any(roles_shared(i) for i in case["invokes"]) and any("Duplicate symbol" in m for _, m in rel):
-                # known class; gfortran rejects the SUBROUTINE statement, the other messages are its consequences
-                g["known_class"] += 1
+            elif case.get("clash"):
+                g["known_class"] += 1      # names of concatenated PSy internals (C24-psy-internal-name-clash)
             else:
                 chk.violation(payload_of(case, "gfortran", "; ".join(f"{l}: {m}" for l, m in rel[:4])))
                 break
